@@ -10,14 +10,22 @@ import vlib
 PROP = "C12"
 
 RULE = ("one evaluation = one schedule of one scenario executed on a fresh Resolver under the cooperative scheduler "
-        "(18 fixed scenario families explored depth-first and with seeded random schedules inside equal time slices, plus "
+        "(21 fixed scenario families explored depth-first and with seeded random schedules inside equal time slices, plus "
         "seeded random scenarios with 1-3 subscribers on 1-2 triggers: same / different input, different forwarded headers, "
         "filters, failing hooks / Start / Write / Flush / Heartbeat, hook emissions, synchronous subscribers, heartbeat "
         "ticks, shutdown, sources that call the updater from two goroutines, histories in which nobody is asked to leave) "
         "and replayed step by step on the extracted LTS. Parking points: the verifYield call sites of resolve.go, the gates "
         "of the scripted data source, and EVERY call on the subscriber's writer (Write / Flush / Complete / Error / "
         "Heartbeat / AsyncErrorWriter.WriteError park inside the call, i.e. while the real code holds writeMu), so client "
-        "operations, joins, teardown and further updater calls are scheduled DURING a write. C13 adds the trigger-identity "
+        "operations, joins, teardown and further updater calls are scheduled DURING a write. "
+        "Families 18-20: the subscriber that CREATED a shared trigger (synchronous or asynchronous) leaves by cancellation of "
+        "its request context while one or two others stay, the source goes on emitting / completes / fails / says Done. "
+        "Besides the correspondence, three clauses are evaluated on the implementation's log ALONE for every run (also after "
+        "the correspondence broke), for trigger keys whose membership is unambiguous from the observables (one Start per key, "
+        "no scripted failure): an Update(e) that returned while s was subscribed and not asked to leave wrote e to s "
+        "(delivery_order); a Complete()/Error() of the source that returned in that period reached s's writer "
+        "(every_subscriber_completed); the trigger context is not observed cancelled in that period (teardown_has_cause). "
+        "C13 adds the trigger-identity "
         "stream: the real graphql_datasource.SubscriptionSource (from the real planner, over a fake "
         "GraphQLSubscriptionClient) driven through the real Resolver on ~60 subscription specs that are equal or differ in "
         "exactly one component (url, header, body.query / variables / extensions, use_sse, sse_method_post, ws_sub_protocol, "
